@@ -113,6 +113,22 @@ Proof.
 Qed.
 End Facts.
 
+(* ---------- states with the same path map and the same kinds of nodes ---------- *)
+Definition kind_same (s s' : mst) : Prop :=
+  mdata s' = mdata s /\ forall r, option_map ndir (get_node s' r) = option_map ndir (get_node s r).
+Lemma kind_same_refl s : kind_same s s. Proof. now split. Qed.
+Lemma kind_same_trans a b c : kind_same a b -> kind_same b c -> kind_same a c.
+Proof. intros (A & B) (D & E). split; [congruence|]. intros r. now rewrite E, B. Qed.
+Lemma kind_same_of_same2 s s' : same2 s s' -> kind_same s s'.
+Proof. intros (A & B). split; [exact A|]. intros r. unfold get_node. now rewrite B. Qed.
+Lemma kind_same_lookup s s' k : kind_same s s' -> lookup s' k = lookup s k.
+Proof. intros (A & _). unfold lookup. now rewrite A. Qed.
+Lemma kind_same_kind s s' k : kind_same s s' -> kind_at s' k = kind_at s k.
+Proof.
+  intros K. unfold kind_at. rewrite (kind_same_lookup _ _ k K). destruct (lookup s k) as [r|]; [|reflexivity].
+  destruct K as (_ & K). specialize (K r). destruct (get_node s' r), (get_node s r); cbn in K; congruence.
+Qed.
+
 (* ---------- the copy of a regular base file into the layer ---------- *)
 (* The base file is open through bh (a handle the table does not use) at offset 0; the two trees have the
    shape of the invariant and the bytes of every pair other than the one of this file agree.  Then copyFile
@@ -126,9 +142,7 @@ Theorem cinv_copy sb1 sl tbl phi p bh fb nb :
     CInvP (fst (m_step sb2 (HClose bh))) sl' tbl phi' /\
     (forall rl rb, phi rl = Some rb -> phi' rl = Some rb) /\
     is_file_at sl' (normalize_path p) = true /\
-    (forall k, lookup (fst (m_step sb2 (HClose bh))) k = lookup sb1 k) /\
-    (forall r, get_node (fst (m_step sb2 (HClose bh))) r = None <-> get_node sb1 r = None) /\
-    kkeep sb1 (fst (m_step sb2 (HClose bh))).
+    kind_same sb1 (fst (m_step sb2 (HClose bh))).
 Proof.
   intros T B Hdata Hw Hlb Hb Hnd Hfree. set (key := normalize_path p) in *.
   pose proof (ts_wfb _ _ _ T) as Wb. pose proof (ts_wfl _ _ _ T) as Wl.
@@ -183,14 +197,13 @@ Proof.
     + intros x Hx. destruct (EntOK_bounds sb1 sl phi c x (Bok i c Hic)) as [_ Hlt]. specialize (Hlt Hx).
       destruct (nth_error (mhandles sl) x) as [hx|] eqn:E; [now apply Kl | apply nth_error_None in E; lia].
     + intros rl rb Hp. destruct (ts_pair _ _ _ T rl rb Hp) as (x & _ & Hx & _). now exists x.
-  - split; [exact Hext|]. split; [unfold is_file_at, kind_at; now rewrite Hl', Hnl', Hdl'|]. split.
-    + intros k. rewrite Hlk3. unfold fs_view in Hv. inversion Hv. unfold lookup. congruence.
-    + split; [|exact (frame_kkeep _ _ _ Fb)]. intros r. unfold get_node. rewrite !nth_error_None.
-      pose proof (fr_heap _ _ _ Fb3). unfold fs_view in Hv. inversion Hv as [[Hv1 Hv2]].
-      destruct (meta_step sb2 (HClose bh) bh hb2 nb eq_refl eq_refl Hhb2) as (Fx & _); [now rewrite Hfb2|]. fold sb3 in Fx.
-      assert (Hl3 : length (mheap sb3) = length (mheap sb2)).
-      { destruct (hop_eff sb2 (HClose bh) bh hb2 nb eq_refl Hhb2) as (h' & E & _); [now rewrite Hfb2|]. exact (he_heap _ _ _ _ _ E). }
-      rewrite Hl3, Hv2. tauto.
+  - split; [exact Hext|]. split; [unfold is_file_at, kind_at; now rewrite Hl', Hnl', Hdl'|].
+    destruct (hop_eff sb2 (HClose bh) bh hb2 nb eq_refl Hhb2) as (h' & E & _); [now rewrite Hfb2|]. fold sb3 in E.
+    unfold fs_view in Hv. inversion Hv as [[Hv1 Hv2]]. split; [rewrite (he_data _ _ _ _ _ E); exact Hv1|].
+    intros r. destruct (get_node sb1 r) as [n|] eqn:Hn.
+    + destruct (fr_nodes _ _ _ Fb r n Hn) as (n' & Hn' & Hd' & _). rewrite Hn'. cbn. now rewrite Hd'.
+    + destruct (get_node sb3 r) as [n'|] eqn:Hn'; [|reflexivity]. exfalso.
+      apply get_some_lt in Hn'. rewrite (he_heap _ _ _ _ _ E), Hv2 in Hn'. unfold get_node in Hn. apply nth_error_None in Hn. lia.
 Qed.
 
 (* ---------- cacheStatus over two layers related by the invariant ---------- *)
@@ -256,7 +269,7 @@ Theorem cinv_cache_copy sb sl tbl phi p :
   CInvP sb sl tbl phi -> wf_name p = true ->
   exists sb' sl' oe phi', cache_copy_to_layer m_step m_step sb sl p = (sb', sl', oe) /\
     CInvP sb' sl' tbl phi' /\ (forall rl rb, phi rl = Some rb -> phi' rl = Some rb) /\
-    (forall k, lookup sb' k = lookup sb k) /\ (forall r, get_node sb' r = None <-> get_node sb r = None) /\ kkeep sb sb' /\
+    kind_same sb sb' /\
     (oe = None -> lookup sb (normalize_path p) <> None /\ lookup sl' (normalize_path p) <> None) /\
     (lookup sb (normalize_path p) <> None -> oe = None).
 Proof.
@@ -283,7 +296,7 @@ Proof.
         destruct Hbk as (ra & na & Hla & Hna & Hda). exists ra, n, na. repeat split; auto; try congruence.
         now rewrite (ti_dirs _ _ _ T k' ra na Hla Hna Hda). }
       exists (bump sb), sl', None, phi'. split; [reflexivity|]. split; [exact C'|]. split; [exact Hext|].
-      split; [reflexivity|]. split; [reflexivity|]. split; [intros r n Hn; now exists n|]. split.
+      split; [apply kind_same_of_same2; now split|]. split.
       * intros _. split; [congruence|]. apply is_dir_at_true in Hdl as (r & n & Hl & _). congruence.
       * reflexivity.
     + (* a regular file: copied *)
@@ -294,7 +307,7 @@ Proof.
       assert (T1 : TreeShape sb1 sl phi) by (apply (TreeShape_view2 sb sl phi sb1 sl S2 (same2_refl sl)); now apply TreeInv_shape).
       assert (B1 : TblInv sb1 sl tbl phi).
       { apply (TblInv_mono sb sl tbl phi sb1 sl phi B Kb1); [intros i h H; exact H | intros r n Hn; now exists n | auto | exact (phi_has_node phi sb sl T)]. }
-      destruct (cinv_copy sb1 sl tbl phi p bh fb nb T1 B1) as (sb2 & sl' & phi' & Hcf & C' & Hext & Hfile & Hlk & Hnn & Hkk).
+      destruct (cinv_copy sb1 sl tbl phi p bh fb nb T1 B1) as (sb2 & sl' & phi' & Hcf & C' & Hext & Hfile & Hks).
       { intros rl rb nl nb' Hp _ Hnl Hnb'. destruct (ti_pair _ _ _ T rl rb Hp) as (x & y & Hx & Hy & _ & Hxy).
         rewrite (same2_node _ _ _ S2) in Hnb'. congruence. }
       { exact Hw. } { fold key. rewrite (same2_lookup _ _ _ S2). exact Hlb. }
@@ -302,10 +315,7 @@ Proof.
       { exact Hnd. }
       { intros i c Hic Hin. destruct B as [Bok _ _]. destruct (EntOK_bounds sb sl phi c bh (Bok i c Hic)) as [Hlt _]. specialize (Hlt Hin). unfold bh in Hlt. cbn [bump mhandles] in Hlt. lia. }
       rewrite Hcf. exists (fst (m_step sb2 (HClose bh))), sl', None, phi'. split; [reflexivity|]. split; [exact C'|]. split; [exact Hext|].
-      split; [intros k; rewrite Hlk; apply (same2_lookup _ _ _ S2)|].
-      split; [intros r; rewrite Hnn; now rewrite (same2_node _ _ _ S2)|].
-      split.
-      { intros r n Hn. apply Hkk. now rewrite (same2_node _ _ _ S2). }
+      split; [eapply kind_same_trans; [apply (kind_same_of_same2 _ _ S2) | exact Hks]|].
       split.
       * intros _. split; [congruence|]. fold key in Hfile. unfold is_file_at, kind_at in Hfile. destruct (lookup sl' key); [discriminate | discriminate Hfile].
       * reflexivity.
@@ -313,6 +323,6 @@ Proof.
     unfold copy_to_layer, copy_to_layer_with. rewrite (open_step (bump sb) p). change (lookup (bump sb) (normalize_path p)) with (lookup sb key). rewrite Hlb.
     cbn [res_err]. exists (bump (bump sb)), sl, (Some (EW KNotExist)), phi. split; [reflexivity|].
     split; [apply (CInvP_view sb sl tbl phi); [repeat split | apply same3_refl | exact (conj T B)]|].
-    split; [auto|]. split; [reflexivity|]. split; [reflexivity|]. split; [intros r n Hn; now exists n|].
+    split; [auto|]. split; [apply kind_same_of_same2; now split|].
     split; [discriminate | congruence].
 Qed.
